@@ -59,6 +59,10 @@ def check(model, tier):
     sqlemit.r_select_never_empty(ctx, "R02.19")
     sqlplace.r_slice_keeps_its_sort(ctx, "R02.20")
     sqlplace.r_subquery_keeps_its_slots(ctx, "R02.21")
+    from ..rules import merge as _merge, mergeeval as _mergeeval
+
+    _merge.r05_3_merged_constructors(ctx, rule="R02.22")  # the Slice arm folds slices into one LIMIT/OFFSET with Slice.then, sorts with Sort.then
+    _mergeeval.r05_9_merge_semantics(ctx, rule="R02.23")
     from ..rules import rangesql as _rangesql
 
     _rangesql.r12_7_range_membership(ctx, rule="R02.13")
